@@ -132,6 +132,20 @@ class Elem:
         if isinstance(st, ast.Return):
             self.returns.append((st, self.expr(st.value) if st.value is not None else None))
             return
+        if isinstance(st, ast.For) and isinstance(st.target, ast.Name) and not st.orelse:
+            # a loop over a handful of literal values (Cartesian directions): unrolled
+            vals = None
+            it = st.iter
+            if isinstance(it, (ast.Tuple, ast.List)) and all(isinstance(x, ast.Constant) and isinstance(x.value, int) for x in it.elts):
+                vals = [x.value for x in it.elts]
+            elif isinstance(it, ast.Call) and dotted(it.func) == "range" and all(isinstance(x, ast.Constant) and isinstance(x.value, int) for x in it.args) and it.args:
+                vals = list(range(*[x.value for x in it.args]))
+            if vals is not None and len(vals) <= 8:
+                for v_ in vals:
+                    self.env[st.target.id] = sp.Integer(v_)
+                    for s_ in st.body:
+                        self.stmt(s_)
+                return
         if isinstance(st, ast.If):
             self.on_if(st)
             return
@@ -277,6 +291,25 @@ class Elem:
                     and isinstance(elts[1], ast.Constant) and elts[1].value in (0, 1, 2) and hasattr(base, "has") and base.has(cs[0]):
                 # column k of a (components, 3) table: the generic component exponent becomes the x / y / z exponent
                 return base.subs(cs[0], cs[1][elts[1].value])
+            csm = getattr(self, "component_symbols_multi", None)
+            if csm and hasattr(base, "has"):
+                # arrays with one Cartesian axis: an integer on that axis (a literal or an unrolled loop variable), everything else
+                # slices / newaxis, picks the x / y / z member of every generic symbol in the value
+                ints = []
+                for z in elts:
+                    if isinstance(z, ast.Constant) and isinstance(z.value, int) and not isinstance(z.value, bool):
+                        ints.append(z.value)
+                    elif isinstance(z, ast.Name) and isinstance(self.env.get(z.id), sp.Integer):
+                        ints.append(int(self.env[z.id]))
+                    elif isinstance(z, ast.Slice) and z.lower is None and z.upper is None and z.step is None:
+                        continue
+                    elif (isinstance(z, ast.Constant) and z.value is None) or (isinstance(z, ast.Attribute) and z.attr == "newaxis"):
+                        continue
+                    else:
+                        ints = None
+                        break
+                if ints is not None and len(ints) == 1 and ints[0] in (0, 1, 2) and any(base.has(g_) for g_ in csm):
+                    return base.subs({g_: comps_[ints[0]] for g_, comps_ in csm.items()}, simultaneous=True)
             if all(isinstance(x, ast.Slice) or (isinstance(x, ast.Constant) and (x.value is None or x.value is Ellipsis or isinstance(x.value, int)))
                    or (isinstance(x, ast.UnaryOp) and isinstance(x.op, ast.USub) and isinstance(x.operand, ast.Constant))
                    or (isinstance(x, ast.Attribute) and x.attr == "newaxis") for x in elts):
